@@ -12,8 +12,8 @@ import (
 
 	"github.com/hashicorp/nodeenrollment"
 	"github.com/hashicorp/nodeenrollment/registration"
-	"github.com/hashicorp/nodeenrollment/storage/file"
 	"github.com/hashicorp/nodeenrollment/rotation"
+	"github.com/hashicorp/nodeenrollment/storage/file"
 	"github.com/hashicorp/nodeenrollment/types"
 	"github.com/mr-tron/base58"
 	"google.golang.org/protobuf/proto"
@@ -149,7 +149,7 @@ func propC06(r *kernel.Run) {
 			ok := err == nil && resp != nil && len(resp.EncryptedNodeCredentials) > 0
 			created := len(after) > len(before)
 			desc := fmt.Sprintf("use t%d by %s age=%v max=%v enrolledBefore=%d storedBefore=%v transplanted=%v bitFlipped=%v nodeRegistered=%v wrapper=%v backend=%s", t.idx, n.Name, age, max, t.enrolled, storedBefore, t.broken, t.flipped, registered[n.KeyId], sw, backend)
-			note(desc+fmt.Sprintf(" -> ok=%v err=%s", ok, shortErr(err)))
+			note(desc + fmt.Sprintf(" -> ok=%v err=%s", ok, shortErr(err)))
 			r.Count("ops.use_token", 1)
 			switch {
 			case registered[n.KeyId]:
